@@ -62,6 +62,10 @@ def gen(rng):
     nsym = rng.choice([1, 2, 4, 9, 30])
     names = [b''] + sorted({('sym%d' % rng.randint(0, 999)).encode() for _ in range(nsym * 2)} | {'fö'.encode('utf-8')})[:nsym - 1]
     nsym = len(names)
+    if nsym >= 4 and rng.random() < 0.3:
+        # two versions of one function: the same name twice in the dynamic symbol table
+        j, k = rng.sample(range(1, nsym), 2)
+        names[k] = names[j]
     hashkind = rng.choice(['gnu', 'sysv', 'both', 'both', 'none'])
     gnu_mode = rng.choice(['occupied', 'occupied', 'empty-consistent', 'empty-ld'])
     if nsym == 1 and gnu_mode == 'occupied':
@@ -140,10 +144,13 @@ def gen(rng):
         tags += [(7, a), (8, len(d)), (9, relasz)]
         rel_tables['RELA'] = (len(d) // relasz, True)
     if rng.random() < 0.3:
-        d = struct.pack(E + ('QQ' if is64 else 'II'), 0x3000, 0x15)
+        from .c08 import relr_expand
+        # an address word followed by one or two bitmap words (consecutive bitmaps continue where the first ended)
+        words = [0x3000] + [rng.getrandbits(cls - 1) << 1 | 1 for _ in range(rng.choice([1, 2, 2]))]
+        d = struct.pack(E + ('Q' if is64 else 'I') * len(words), *words)
         a = add('.relr.dyn', 19, d, entsize=W)
         tags += [(36, a), (35, len(d)), (37, W)]
-        rel_tables['RELR'] = (3, None)
+        rel_tables['RELR'] = (len(relr_expand(words, cls)), None, relr_expand(words, cls))
     if rng.random() < 0.4:
         prela = rng.random() < 0.5
         d = rels(rng.choice([1, 3]), prela)
@@ -300,10 +307,12 @@ def check_relocs(dyn, g, st, rng, what):
         raise Bad('%s: relocation tables found' % what, got=sorted(tabs), want=sorted(g['rel_tables']))
     dig = {}
     for k, t in tabs.items():
-        n, rela = g['rel_tables'][k]
+        n, rela = g['rel_tables'][k][:2]
         if t.num_relocations() != n or (rela is not None and t.is_RELA() != rela):
             raise Bad('%s: %s table size/flavour' % (what, k), got=t.num_relocations(), want=n)
         dig[k] = [(r['r_offset'], r.entry.get('r_info'), r.entry.get('r_addend')) for r in t.iter_relocations()]
+        if len(g['rel_tables'][k]) > 2 and [x[0] for x in dig[k]] != g['rel_tables'][k][2]:
+            raise Bad('%s: RELR table expands to other addresses' % what, got=[x[0] for x in dig[k]][:5], want=g['rel_tables'][k][2][:5])
     return dig
 
 
